@@ -159,6 +159,9 @@ func init() {
 		c18ClosureAssigns(s, e, auth, "WithUnauthorizedCallback", "authWithCallbackAssigns")
 		c18ClosureAssigns(s, e, srv, "WithUnsignedCallback", "withUnsignedCallbackCalls")
 
+		// ---- round 5c: ParseToken's retry structure as a TYPED call list (symbolic execution: which secret each call gets)
+		c18ParseTokenCalls(s, e, tokp, "TokenParser.ParseToken", "parseTokenCalls")
+
 		// ---- round 5: whole bodies as DECISION functions: which effects run, in order, for every outcome of the conditions
 		c18Effects(s, e, c18EffSpec{rel: auth, fn: "Authorize", lean: "authorizeEffects", depth: 2,
 			params: "(parseErr tokValid claimsOk : Bool)",
@@ -1024,4 +1027,135 @@ func c18Effects(s *source, e *emitter, sp c18EffSpec) {
 		return
 	}
 	e.printf("/-- the effects of `%s` (%s), in order, for every outcome of its conditions -/\ndef %s %s : List String :=\n  %s\n\n", sp.fn, sp.rel, sp.lean, sp.params, expr)
+}
+
+// ---- round 5c ----
+
+// c18ParseTokenCalls executes TokenParser.ParseToken symbolically: the locals first / second / count / prevCount are tracked
+// through the assignments, every call of tp.loadCount / tp.doParseToken / tp.incrementCount is emitted as (kind, the
+// secret it is given), every `err != nil` is the error of the doParseToken call that assigned err last (`err <its secret>`),
+// the returns are ("return-err", "") / ("return-token", ""). Anything else is an extraction error.
+func c18ParseTokenCalls(s *source, e *emitter, rel, fn, lean string) {
+	fd := s.findFunc(rel, fn)
+	if fd == nil {
+		c18Fail(e, lean, "function "+fn+" not found in "+rel)
+		return
+	}
+	bad := ""
+	fail := func(n ast.Node, why string) string {
+		if bad == "" {
+			bad = why + ": " + strings.SplitN(s.src(n), "\n", 2)[0]
+		}
+		return "[]"
+	}
+	type env struct {
+		vars    map[string]string // local -> Lean term of the secret it holds ("secret" | "prev") or "count:<term>"
+		lastErr string            // the secret of the doParseToken call err came from
+	}
+	clone := func(v env) env {
+		m := map[string]string{}
+		for k, x := range v.vars {
+			m[k] = x
+		}
+		return env{m, v.lastErr}
+	}
+	val := func(v env, x ast.Expr) string {
+		src := s.src(x)
+		if t, ok := v.vars[src]; ok && !strings.HasPrefix(t, "count:") {
+			return t
+		}
+		return ""
+	}
+	var exec func(list []ast.Stmt, v env) string
+	exec = func(list []ast.Stmt, v env) string {
+		if len(list) == 0 {
+			return "[]"
+		}
+		st, rest := list[0], list[1:]
+		emit := func(kind, arg string) string {
+			return "((" + leanString(kind) + ", " + arg + ") :: " + exec(rest, v) + ")"
+		}
+		switch x := st.(type) {
+		case *ast.DeclStmt:
+			return exec(rest, v)
+		case *ast.ReturnStmt:
+			if len(x.Results) == 2 {
+				a, b := s.src(x.Results[0]), s.src(x.Results[1])
+				if a == "nil" && b == "err" {
+					return "[(\"return-err\", \"\")]"
+				}
+				if a == "token" && b == "nil" {
+					return "[(\"return-token\", \"\")]"
+				}
+			}
+			return fail(st, "return")
+		case *ast.ExprStmt:
+			call, ok := x.X.(*ast.CallExpr)
+			if ok && s.src(call.Fun) == "tp.incrementCount" && len(call.Args) == 1 && val(v, call.Args[0]) != "" {
+				return emit("incr", val(v, call.Args[0]))
+			}
+			return fail(st, "call")
+		case *ast.AssignStmt:
+			if len(x.Rhs) != 1 {
+				return fail(st, "assignment")
+			}
+			if call, ok := x.Rhs[0].(*ast.CallExpr); ok {
+				switch s.src(call.Fun) {
+				case "tp.loadCount":
+					if len(x.Lhs) == 1 && len(call.Args) == 1 && val(v, call.Args[0]) != "" {
+						v.vars[s.src(x.Lhs[0])] = "count:" + val(v, call.Args[0])
+						return emit("load", val(v, call.Args[0]))
+					}
+				case "tp.doParseToken":
+					if len(x.Lhs) == 2 && s.src(x.Lhs[0]) == "token" && s.src(x.Lhs[1]) == "err" && len(call.Args) == 2 &&
+						s.src(call.Args[0]) == "r" && val(v, call.Args[1]) != "" {
+						v.lastErr = val(v, call.Args[1])
+						return emit("parse", val(v, call.Args[1]))
+					}
+				}
+				return fail(st, "call")
+			}
+			if len(x.Lhs) == 1 && x.Tok == token.ASSIGN && val(v, x.Rhs[0]) != "" {
+				if name := s.src(x.Lhs[0]); name == "first" || name == "second" {
+					v.vars[name] = val(v, x.Rhs[0])
+					return exec(rest, v)
+				}
+			}
+			return fail(st, "assignment")
+		case *ast.IfStmt:
+			if x.Init != nil {
+				return fail(st, "if with an init statement")
+			}
+			cond := ""
+			switch c := s.src(x.Cond); {
+			case c == "len(prevSecret) > 0":
+				cond = "hasPrev"
+			case c == "err != nil" && v.lastErr != "":
+				cond = "err " + v.lastErr
+			case c == "count > prevCount" && v.vars["count"] == "count:secret" && v.vars["prevCount"] == "count:prev":
+				cond = "currentLeads"
+			default:
+				return fail(st, "condition outside the translated subset")
+			}
+			a := exec(append(append([]ast.Stmt{}, x.Body.List...), rest...), clone(v))
+			b := ""
+			switch el := x.Else.(type) {
+			case nil:
+				b = exec(rest, clone(v))
+			case *ast.BlockStmt:
+				b = exec(append(append([]ast.Stmt{}, el.List...), rest...), clone(v))
+			default:
+				return fail(st, "else")
+			}
+			return "(if " + cond + " then " + a + " else " + b + ")"
+		}
+		return fail(st, "statement outside the translated subset")
+	}
+	expr := exec(fd.Body.List, env{map[string]string{"secret": "secret", "prevSecret": "prev"}, ""})
+	if bad != "" {
+		c18Fail(e, lean, fn+": "+bad)
+		return
+	}
+	e.printf("/-- `%s` (%s) as a typed call list: (kind, the secret the call is given), for every outcome of the conditions; `err s` = doParseToken with secret `s` returned an error -/\n", fn, rel)
+	e.printf("def %s (secret prev : String) (hasPrev currentLeads : Bool) (err : String → Bool) : List (String × String) :=\n  %s\n\n", lean, expr)
 }
